@@ -101,8 +101,16 @@ func stringToDFA(value string) *auto.DFA {
 	start := auto.State(0)
 	d := auto.NewDFA(start, nil)
 
+	// A string literal denotes its own characters: a backslash escapes the character that follows it.
 	curr, next := start, start+1
-	for _, r := range value {
+	runes := []rune(value)
+	for i := 0; i < len(runes); i++ {
+		r := runes[i]
+		if r == '\\' && i+1 < len(runes) {
+			i++
+			r = runes[i]
+		}
+
 		d.Add(curr, auto.Symbol(r), next)
 		curr, next = next, next+1
 	}
